@@ -52,9 +52,16 @@ def prepare(verbose=False):
         if os.path.exists(os.path.join(d, 'done')):
             return info(d, key, cached=True)
         # drop stale builds (keep disk use bounded)
+        olds = []
         for old in os.listdir(SCRATCH_ROOT):
             p = os.path.join(SCRATCH_ROOT, old)
-            if os.path.isdir(p) and old != key: shutil.rmtree(p, ignore_errors=True)
+            if os.path.isdir(p) and old != key:
+                try: olds.append((os.path.getmtime(p), p))
+                except OSError: pass
+        olds.sort(reverse=True)
+        for i, (mt, p) in enumerate(olds):
+            # another check may be running against a different tree state: only drop builds that are old or too many
+            if i >= 5 or time.time() - mt > 3 * 3600: shutil.rmtree(p, ignore_errors=True)
         shutil.rmtree(d, ignore_errors=True)
         os.makedirs(d)
         copy = os.path.join(d, 'copy')
